@@ -76,7 +76,7 @@ def _next_borrower(pool: WorkerPool, first_pid: int, tag: str) -> int:
     return bad
 
 
-def scenario_b() -> int:
+def scenario_b(how: str = "close") -> int:
     def strict_on_log(msg: object) -> None:
         raise ValueError("application callback refuses log messages")
 
@@ -85,28 +85,36 @@ def scenario_b() -> int:
             pid = svc0.get_pid()
         try:
             with pool.connect(Svc, CMD, on_log=strict_on_log) as svc:
-                with svc.talk() as session:
-                    session.exchange(batch(1))  # on_log raises here; `with session` then runs close()
+                if how == "close":
+                    with svc.talk() as session:
+                        session.exchange(batch(1))  # on_log raises here; `with session` then runs close()
+                else:
+                    session = svc.talk()
+                    try:
+                        session.exchange(batch(1))  # on_log raises here ...
+                    finally:
+                        session.cancel()  # ... and the application cancels the stream
         except ValueError as e:
-            print(f"B: borrower 1 got ValueError({e}) -- its connection is over")
-        print(f"B: after borrower 1: idle={pool.idle_count} discards={pool.metrics.discards}")
-        bad = _next_borrower(pool, pid, "B")
+            print(f"B/{how}: borrower 1 got ValueError({e}) -- its connection is over")
+        print(f"B/{how}: after borrower 1: idle={pool.idle_count} discards={pool.metrics.discards}")
+        bad = _next_borrower(pool, pid, f"B/{how}")
         if bad:
-            print("DEFECT C32: worker reused after a stream interrupted by a client-side exception; the next borrower read the previous borrower's response")
+            print(f"DEFECT C32: worker reused after a stream interrupted by a client-side exception (on_log raised again inside {how}()'s drain); the next borrower read the previous borrower's response")
         return bad
 
 
-def scenario_d() -> int:
+def scenario_d(how: str = "close") -> int:
     with WorkerPool(max_idle=2) as pool:
         with pool.connect(Svc, CMD) as svc0:
             pid = svc0.get_pid()
         with pool.connect(Svc, CMD) as svc:
-            with svc.boom() as session:
-                session._write_batch(batch(1))  # input sent; the application never gets to read the reply
-        print(f"D: after borrower 1: idle={pool.idle_count} discards={pool.metrics.discards}")
-        bad = _next_borrower(pool, pid, "D")
+            session = svc.boom()
+            session._write_batch(batch(1))  # input sent; the application never gets to read the reply
+            getattr(session, how)()
+        print(f"D/{how}: after borrower 1: idle={pool.idle_count} discards={pool.metrics.discards}")
+        bad = _next_borrower(pool, pid, f"D/{how}")
         if bad:
-            print("DEFECT C32: worker reused although close() stopped draining at the server's error batch; the next borrower read the previous stream's end-of-stream marker")
+            print(f"DEFECT C32: worker reused although {how}() stopped draining at the server's error batch; the next borrower read the previous stream's end-of-stream marker")
         return bad
 
 
@@ -135,9 +143,10 @@ def scenario_c() -> int:
 
 def main() -> int:
     bad = 0
-    for fn in (scenario_a, scenario_b, scenario_d, scenario_c):
+    steps = [(scenario_a, ()), (scenario_b, ("close",)), (scenario_b, ("cancel",)), (scenario_d, ("close",)), (scenario_d, ("cancel",)), (scenario_c, ())]
+    for fn, args in steps:
         try:
-            bad += fn()
+            bad += fn(*args)
         except Exception as e:  # noqa: BLE001
             print(f"{fn.__name__}: unexpected {type(e).__name__}: {e}")
             bad += 1
